@@ -586,10 +586,31 @@ def run_b15(chk, repo):
               and any(isinstance(c, ast.Call) and any(k.arg in ('old_parameters', 'old_random_variables') for k in c.keywords)
                       for c in ast.walk(n.ast))}
     first = min(calls, key=lambda t: t[0].line) if calls else None
-    if first is None or not resets:
-        raise AnalysisError('B15: call of update_statements / reset of old_parameters not found in update_source')
+    if first is None:
+        raise AnalysisError('B15: call of update_statements not found in update_source')
     node, call = first
     arg = call.args[idx] if len(call.args) > idx else next((k.value for k in call.keywords if k.arg == flag), None)
+    if not resets and isinstance(arg, ast.Name):
+        # the first phase (flag, update of the records, refresh of the snapshots) may have been moved into a helper that
+        # returns the flag: `model, control_stream, renumbered = helper(model)`; the same obligations hold inside the helper
+        for n_ in cfg.nodes.values():
+            a_ = n_.ast
+            if n_.kind == 'stmt' and isinstance(a_, ast.Assign) and isinstance(a_.targets[0], ast.Tuple) \
+                    and isinstance(a_.value, ast.Call) and isinstance(a_.value.func, ast.Name):
+                pos = [i_ for i_, t_ in enumerate(a_.targets[0].elts) if isinstance(t_, ast.Name) and t_.id == arg.id]
+                r_ = repo.resolve(mm, a_.value.func.id)
+                h_ = r_[1] if r_ and r_[0] == 'func' else None
+                if pos and h_ is not None:
+                    hret = [x.value for x in walk_no_nested(h_.node) if isinstance(x, ast.Return) and isinstance(x.value, ast.Tuple)]
+                    if hret and pos[0] < len(hret[0].elts) and isinstance(hret[0].elts[pos[0]], ast.Name):
+                        us, mm = h_, h_.module
+                        cfg = CFG(h_.node)
+                        arg = hret[0].elts[pos[0]]
+                        resets = {n.id for n in cfg.nodes.values() if n.ast is not None and n.kind == 'stmt'
+                                  and any(isinstance(c, ast.Call) and any(k.arg in ('old_parameters', 'old_random_variables')
+                                                                          for k in c.keywords) for c in ast.walk(n.ast))}
+    if not resets:
+        raise AnalysisError('B15: reset of old_parameters not found in update_source (or the helper that computes the flag)')
     chk.instance(B15, f'update_source passes {unparse(arg) if arg is not None else None} as `{flag}`')
     if arg is None or not isinstance(arg, ast.Name):
         chk.violation(B15, mm.rel, us.qualname, unparse(call)[:100],
